@@ -22,7 +22,8 @@ RULE = (
     "no task executes after its completion is durable; execution counts equal the exactly-once reference. "
     "(b) the filter itself: hypothesis-generated id sets (arbitrary unicode, tiny and large capacities) under a shadow "
     "set contract: maybe_seen(x) is True for every x told via mark_seen / hydrate since the last reset. "
-    "(c) 'to a different worker': 2-4 worker threads of ONE process (the single-writer setting in which "
+    "(c) 'to a different worker': 2-4 worker threads of ONE process - in a third of the cases running two QueueProcessor "
+    "objects of which only one trusts the filter's negatives - (the single-writer setting in which "
     "dedup_trust_negative_cache is allowed) share the global filter, a tiny filter capacity forces rotation + "
     "re-hydration while other threads are mid-handling, every message is forgotten once (no ack, lock lapses) and comes "
     "back to whichever thread polls next; threads are interleaved by the cooperative scheduler at every SQL statement "
